@@ -114,6 +114,16 @@ def through_try(fn, o, depth=6):
     return o
 
 
+def mirrored(c):
+    """the same branch with the comparison written the other way round (`a > b` as `b < a`); None for non-binary tests"""
+    flip = {"<": ">", ">": "<", "<=": ">=", ">=": "<=", "==": "==", "!=": "!="}
+    if c.get("op") not in flip or "a" not in c:
+        return None
+    d = dict(c)
+    d["op"], d["a"], d["b"] = flip[c["op"]], c["b"], c["a"]
+    return d
+
+
 def cmp_branches(fn):
     """comparisons that select a branch: list of dict(block, op, a, b, true, false, ln, neg)"""
     out = []
